@@ -872,6 +872,17 @@ def ctx_exit(eng, mgr, exc, node, frame):
     m = eng.deref(mgr)
     if isinstance(m, VSeq):
         return False
+    if isinstance(m, VObj) and m.cls == "suppress":
+        if exc is None:
+            return False
+        if exc.cls is not None:
+            return any(eng.exc_is_subclass(exc.cls, c) for c in m.classes)
+        ub = exc.any_of or "BaseException"
+        if any(eng.exc_is_subclass(ub, c) for c in m.classes):
+            return True
+        if not any(eng.exc_is_subclass(c, ub) for c in m.classes):
+            return False
+        return eng.branch(fresh_bool("suppressed"), free=True)
     if isinstance(m, VObj):
         con = C.find_method(m.cls, "__exit__")
         if con is not None:
@@ -1398,6 +1409,16 @@ def construct(eng, cls: VClass, args, kwargs, node, frame):
         obj = eng.alloc(o)
         eng.call_contract(con, [obj] + args, kwargs, node, frame)
         return obj
+    cs0 = C.CLASS_SPECS.get(cls.name)
+    if cs0 is not None and getattr(cs0, "constructible", False):
+        # tracked record class whose constructor is not under contract: fields start as declared
+        o = VObj(cls.name)
+        for f, ex in cs0.init.items():
+            o.fields[f] = eng.eval_spec(ex, frame)
+        obj = eng.alloc(o)
+        if not eng.spec and eng.branch(fresh_bool("ctor_raises"), free=True):
+            raise PyExc(None, site=getattr(node, "lineno", None), any_of=eng.fault_bound())
+        return obj
     dotted = f"{cls.module}.{cls.name}" if cls.module and not str(cls.module).endswith(".py") else cls.name
     tcon = C.lookup("<stdlib>", dotted)
     if tcon is not None:
@@ -1437,7 +1458,7 @@ def opaque_method(eng, recv, r, name, args, kwargs, node):
         eng.heap[recv.addr] = eng.havoc_like(r, f"self_after_{name}")
     for a in args:
         eng.havoc_reachable(a)
-    if eng.branch(fresh_bool("opaque_raises"), free=True):
+    if not eng.faults_pruned() and eng.branch(fresh_bool("opaque_raises"), free=True):
         raise PyExc(None, site=getattr(node, "lineno", None), any_of=eng.fault_bound())
     return VOpaque(tag=f"ret:{what}")
 
@@ -1964,3 +1985,23 @@ def int_base16(eng, v, node=None):
     if eng.branch(fresh_bool("int16_raises"), free=True):
         eng.raise_exc("ValueError", node)
     return VInt(fresh_int("int16"))
+
+
+@model("contextlib.suppress", "suppress")
+def m_suppress(eng, args, kwargs, node, frame):
+    o = VObj("suppress", {})
+    o.classes = [a.name for a in args if isinstance(a, VClass)]
+    if len(o.classes) != len(args):
+        return eng.opaque_call("suppress(untracked)", [], node, havoc_args=False)
+    return eng.alloc(o)
+
+
+
+
+@model("os.fspath")
+def m_fspath(eng, args, kwargs, node, frame):
+    """os.fspath(p) denotes the same path as p (identity for str/bytes); TypeError for non-paths."""
+    if not eng.spec and eng.branch(fresh_bool("fspath_typeerror"), free=True):
+        eng.raise_exc("TypeError", node)
+    eng.vf.note_assumption("os.fspath(p) is treated as the identity on paths")
+    return args[0]
